@@ -428,109 +428,91 @@ def cursor_loops(stmts):
     return out
 
 
-def unadvanced_continues(loop, p):
-    """`continue` statements of the loop that can be reached from the top of the loop body without any statement
-    having moved cursor p.  Exact over the structured fragment: statement lists, blocks, if/else and switch arms
-    (fall-through followed); nested loops are treated as opaque statements that may advance."""
+PURE_CALLS = ('sizeof', 'likely', 'unlikely', 'if', 'while', 'switch', 'for', 'return')
+
+
+def has_effect(text):
+    """Can evaluating this statement/condition text change program state?  (assignment, ++/--, or a call other than
+    sizeof/likely/unlikely).  Over-approximates: anything unrecognised counts as an effect."""
+    t = CHAR_LIT.sub("'c'", text)
+    t = re.sub(r'"(?:\\.|[^"\\])*"', '""', t)
+    if re.search(r'\+\+|--', t):
+        return True
+    if re.search(r'(?<![=!<>])=(?!=)', t):
+        return True
+    for m in re.finditer(r'([A-Za-z_]\w*)\s*\(', t):
+        if m.group(1) not in PURE_CALLS:
+            return True
+    return False
+
+
+def stuck_exits(loop):
+    """Back edges of the loop (`continue` statements, or the end of the body: reported as the loop itself) that are
+    reachable from the top of the loop body along a path on which *no* statement or branch condition has any side
+    effect.  With a side-effect free loop condition such a path repeats forever, so this is an exact
+    non-termination witness.  Structured fragment: lists, blocks, if/else, switch arms with fall-through and break;
+    nested loops and goto are treated as having an effect."""
     bad = []
 
-    def run(stmts, adv):
-        """-> set of possible `advanced` flags at the end of the list (empty = never completes)."""
-        states = {adv}
-        for st in stmts:
-            if not states:
-                break
-            nxt = set()
-            for a in states:
-                nxt |= step(st, a)
-            states = nxt
-        return states
-
-    def step(st, a):
-        if st.kind == 'simple':
-            if re.match(r'continue\b', st.text):
-                if not a:
-                    bad.append(st)
-                return set()
-            if TERMINATOR.match(st.text):
-                return set()
-            return {a or advances(st.text, p)}
-        if st.kind == 'block':
-            return run(st.body, a)
-        if st.kind == 'if':
-            a2 = a or advances(st.text, p)
-            out = run(as_list(st.body), a2)
-            out |= run(as_list(st.orelse), a2) if st.orelse is not None else {a2}
-            return out
-        if st.kind == 'switch':
-            arms = switch_arms(st)
-            out = set()
-            if not any(arm.default for arm in arms):
-                out.add(a)
-            for arm in arms:
-                cur = {a}
-                for link in chain(arms, arm.index):
-                    nxt = set()
-                    for x in cur:
-                        nxt |= run_arm(link.body, x)
-                    cur = nxt
-                out |= cur
-            return out
-        if st.kind in ('while', 'for', 'do'):
-            txt = ' '.join(s.text for s in walk([st]))
-            return {a, True} if advances(txt, p) else {a}
-        return {a}
-
-    def run_arm(stmts, a):
-        # inside a switch arm `break` leaves the switch (normal completion), `continue` still belongs to the loop
-        states = {a}
+    def run(stmts, a):
+        """-> (flags possible at normal completion, flags possible at a `break` leaving the enclosing construct);
+        flag True = some effect happened on the path."""
+        states, brk = {a}, set()
         for st in stmts:
             if not states:
                 break
             nxt = set()
             for x in states:
-                if st.kind == 'simple' and re.match(r'break\b', st.text):
-                    done.add(x)
-                    continue
-                nxt |= step(st, x)
+                n, b = step(st, x)
+                nxt |= n
+                brk |= b
             states = nxt
-        res = states | done
-        return res
+        return states, brk
 
-    done = set()
-    # `done` collects states leaving a switch through break; handled per call of step('switch') below
-    def step_switch_wrapper():
-        pass
-
-    # re-implement switch handling with a local break set (simple closure trick)
-    def step(st, a, _inner=step):       # noqa: F811
+    def step(st, a):
+        if st.kind == 'simple':
+            if re.match(r'continue\b', st.text):
+                if not a and st not in bad:
+                    bad.append(st)
+                return set(), set()
+            if re.match(r'break\b', st.text):
+                return set(), {a}
+            if TERMINATOR.match(st.text):
+                return set(), set()
+            return {a or has_effect(st.text)}, set()
+        if st.kind == 'block':
+            return run(st.body, a)
+        if st.kind == 'if':
+            a2 = a or has_effect(st.text)
+            n1, b1 = run(as_list(st.body), a2)
+            n2, b2 = run(as_list(st.orelse), a2) if st.orelse is not None else ({a2}, set())
+            return n1 | n2, b1 | b2
         if st.kind == 'switch':
+            a2 = a or has_effect(st.text)
             arms = switch_arms(st)
             out = set()
             if not any(arm.default for arm in arms):
-                out.add(a)
+                out.add(a2)
             for arm in arms:
-                cur = {a}
-                leaving = set()
-                for link in chain(arms, arm.index):
+                cur = {a2}
+                for link in arms[arm.index:]:
                     nxt = set()
                     for x in cur:
-                        states = {x}
-                        for s2 in link.body:
-                            if not states:
-                                break
-                            n2 = set()
-                            for y in states:
-                                if s2.kind == 'simple' and re.match(r'break\b', s2.text):
-                                    leaving.add(y)
-                                else:
-                                    n2 |= step(s2, y)
-                            states = n2
-                        nxt |= states
+                        n, b = run(link.body, x)
+                        nxt |= n
+                        out |= b
                     cur = nxt
-                out |= cur | leaving
-            return out
-        return _inner(st, a)
+                    if not cur:
+                        break
+                out |= cur
+            return out, set()
+        if st.kind in ('while', 'for', 'do'):
+            return {True}, set()
+        if st.kind in ('case', 'default', 'pp'):
+            return {a}, set()
+        return {True}, set()
 
-    run(as_list(loop.body), False)
+    end, _ = run(as_list(loop.body), False)
+    if False in end:
+        bad.append(loop)
     return bad
